@@ -57,6 +57,7 @@ Record strace := STrace {
 
 Inductive c01case :=
 | SysCase (shards : nat) (ns : str) (ignore_host : bool)   (* workers; the parser's namespace and ignore-host *)
+          (static : list str)                               (* TagHandler: static tags (no filters) *)
           (batches : list (list dgram)) (table : list (str * pfres))
           (flushes : list (nat * nat * list oentry))
           (tr : option strace)   (* None: the harness could not resolve the logs (a monitor reports why) *)
@@ -69,12 +70,26 @@ Definition oracle (t : list (str * pfres)) (s : str) : pfres :=
 
 (* the datapoints of all batches (parser.go through Model/Datagram.v); None = the datagram
    model reports a panic *)
-Definition parse_each (ns : str) (ih : bool) (t : list (str * pfres)) (bs : list (list dgram))
+(* The tag stage between the parsers and the BackendHandler (handler_tags.go TagHandler without
+   filters: uniqueTags(tags, static)): the first occurrences of a metric's tags, then the static tags
+   that are not among them.  The handler re-keys every value of the batch's map by the resulting tags
+   and merges values whose keys now coincide; for counters, timers and sets that is the same as
+   applying the rule to every datapoint before it is received (gauges are compared by presence only). *)
+Fixpoint dedup_tags (seen : list str) (l : list str) : list str :=
+  match l with
+  | [] => []
+  | x :: r => if existsb (str_eqb x) seen then dedup_tags seen r else x :: dedup_tags (x :: seen) r
+  end.
+Definition tag_stage (static : list str) (d : datapoint) : datapoint :=
+  let u := dedup_tags [] (dp_tags d) in
+  MkDp (dp_name d) (dp_type d) (dp_value d) (dp_strval d) (dp_rate d) (u ++ dedup_tags u static) (dp_src d) (dp_ts d).
+
+Definition parse_each (ns : str) (ih : bool) (static : list str) (t : list (str * pfres)) (bs : list (list dgram))
     : option (list (list datapoint)) :=
   foldr (λ b acc,
            match acc, Datagram.parse_all (oracle t) (Datagram.Cfg ns ih)
                         (map (λ d, Datagram.Dg (dg_ip d) (dg_ts d) (dg_msg d)) b) with
-           | Some ds, Datagram.DgOk r => Some (Datagram.dg_metrics r :: ds)
+           | Some ds, Datagram.DgOk r => Some ((tag_stage static <$> Datagram.dg_metrics r) :: ds)
            | _, _ => None
            end) (Some []) bs.
 
@@ -254,8 +269,8 @@ Fixpoint trace_agg (c : config) (a : mmap) (ops : list aop) : list (list entry) 
 
 Definition check_case (c : c01case) : bool :=
   match c with
-  | SysCase n ns ih bs t fl tr =>
-      match parse_each ns ih t bs with
+  | SysCase n ns ih static bs t fl tr =>
+      match parse_each ns ih static t bs with
       | Some dps =>
           let '(m_in, m_out) := sys_model dps fl in
           same_content m_in m_out
@@ -276,8 +291,8 @@ Inductive explain :=
 
 Definition explain_case (c : c01case) : explain :=
   match c with
-  | SysCase n ns ih bs t fl tr =>
-      match parse_each ns ih t bs with
+  | SysCase n ns ih static bs t fl tr =>
+      match parse_each ns ih static t bs with
       | Some dps =>
           let '(m_in, m_out) := sys_model dps fl in
           XSys (cdump m_in) (cdump m_out) (routed n fl) (pairs_unique (map (λ x, x.1) fl)) (series_unique_per_flush fl)
